@@ -132,6 +132,43 @@ def affine(t):
     return (a[0], a[1], a[2], Fraction(1))
 
 
+def linear(t):
+    """({var: coef}, const) for a term that is linear over several variables, else None."""
+    k = t[0]
+    if k == "const" and isinstance(t[1], int) and not isinstance(t[1], bool):
+        return ({}, Fraction(t[1]))
+    if k == "var":
+        return ({t[1]: Fraction(1)}, Fraction(0))
+    if k in ("add", "sub"):
+        a, b = linear(t[1]), linear(t[2])
+        if a is None or b is None:
+            return None
+        s = 1 if k == "add" else -1
+        d = dict(a[0])
+        for v, c in b[0].items():
+            d[v] = d.get(v, 0) + s * c
+        return ({v: c for v, c in d.items() if c != 0}, a[1] + s * b[1])
+    if k == "mul":
+        a, b = linear(t[1]), linear(t[2])
+        if a is None or b is None:
+            return None
+        if not a[0]:
+            return ({v: c * a[1] for v, c in b[0].items()}, a[1] * b[1])
+        if not b[0]:
+            return ({v: c * b[1] for v, c in a[0].items()}, a[1] * b[1])
+        return None
+    if k in ("call", "field", "proj", "rv", "idx"):
+        return ({fmt(t): Fraction(1)}, Fraction(0))
+    return None
+
+
+def lin_sub(a, b):
+    d = dict(a[0])
+    for v, c in b[0].items():
+        d[v] = d.get(v, 0) - c
+    return ({v: c for v, c in d.items() if c != 0}, a[1] - b[1])
+
+
 def fmt(t):
     k = t[0]
     if k == "const":
